@@ -190,7 +190,7 @@ impl Mutator for TypeConfusionMutator {
         source: &mut GenerationSource,
         rate: f64,
     ) -> bool {
-        if !self.unsafe_mode || source.gen_f64() > rate {
+        if !self.unsafe_mode || source.gen_unit_f64() >= rate {
             return false;
         }
 
